@@ -490,6 +490,15 @@ pub fn run_loop(cfg: &RunCfg, trace_on: bool, full: bool, monitor: Monitor) -> R
             let op = &ops[i - 1];
             let want = cx.world.apply(op);
             cx.grow_universe();
+            if matches!(op, Op::Reopen) && cx.exec.slots.is_empty() {
+                // restart: new adapters over the same layers (fs 0)
+                if let Err(e) = cx.built[0].reopen(&cfg.specs[0]) {
+                    cx.out.harness_error = Some(e);
+                    return cx.finish();
+                }
+                cx.exec.roots[0] = cx.built[0].root.clone();
+                cx.out.count("fault.restart_adapters_rebuilt");
+            }
             let got = cx.exec.exec(op);
             (Some(op), want, got)
         };
